@@ -3,6 +3,7 @@ Helper development for C18_captures_exact: the implicit-usage analysis
 (`analyze_implicit_usage`, model functions `procN/procGs/procG/procNs/analyze`).
 -/
 import IrVerif.Lemmas.Extract
+set_option linter.unusedSimpArgs false
 namespace IrVerif.Extract
 
 /-- `v` is recorded for graph `k` -/
@@ -406,5 +407,132 @@ theorem foldl_procN_spec (W : World) (root : GId) (k : GId) (x : VId) :
         · exact Or.inl (Or.inl h)
         · exact Or.inl (Or.inr h)
         · exact Or.inr ⟨m, hm, h⟩
+
+/-! ## reading `CapG` as "free variables of a nested graph" -/
+
+/-- `s` is `b` or a graph nested in `b` at any depth -/
+inductive SubG : GraphT → GraphT → Prop
+  | self {b : GraphT} : SubG b b
+  | deeper {b c s : GraphT} {n : NodeT} : n ∈ b.nodes → c ∈ n.bodies → SubG c s → SubG b s
+
+/-- no graph of the subtree of `c` owns `v` -/
+def NoOwn (W : World) (c : GraphT) (v : VId) : Prop := ∀ j, NestedIn c j → W.graphOf v ≠ some j
+
+theorem addsTo_cons_of_ne {W : World} {g : GId} {chain : List GId} {v : VId} {k : GId}
+    (hne : W.graphOf v ≠ some g) (h : AddsTo W chain v k) : AddsTo W (g :: chain) v k := by
+  unfold AddsTo at *
+  have : (!(W.graphOf v == some g)) = true := by simpa using hne
+  simp only [List.takeWhile_cons, this, if_true]
+  exact List.mem_cons_of_mem _ h
+
+theorem addsTo_self {W : World} {g : GId} {chain : List GId} {v : VId}
+    (hne : W.graphOf v ≠ some g) : AddsTo W (g :: chain) v g := by
+  unfold AddsTo
+  have : (!(W.graphOf v == some g)) = true := by simpa using hne
+  simp only [List.takeWhile_cons, this, if_true]
+  exact List.mem_cons_self
+
+theorem addsTo_ne {W : World} {chain : List GId} {v : VId} {k : GId} (h : AddsTo W chain v k) :
+    W.graphOf v ≠ some k := by
+  unfold AddsTo at h
+  induction chain with
+  | nil => cases h
+  | cons g t ih =>
+    by_cases hg : (!(W.graphOf v == some g)) = true
+    · simp only [List.takeWhile_cons, hg, if_true] at h
+      rcases List.mem_cons.mp h with rfl | h'
+      · simpa using hg
+      · exact ih h'
+    · simp [List.takeWhile_cons, hg] at h
+
+theorem addsTo_mem {W : World} {chain : List GId} {v : VId} {k : GId} (h : AddsTo W chain v k) :
+    k ∈ chain := (List.takeWhile_sublist _).subset h
+
+mutual
+  /-- completeness: a value used in `c` or deeper and owned by no graph of the subtree of `c` is recorded
+      for `c` and for every enclosing graph up to the owner -/
+  theorem capG_of_used (W : World) (v : VId) (k : GId) :
+      ∀ (c : GraphT) (inner : List GId), UsedInG c v → NoOwn W c v → AddsTo W (c.gid :: inner) v k →
+        CapG W inner c k v
+    | .mk gid i w o ns, inner, hu, hno, hk => by
+      cases hu with
+      | node hn hun =>
+        obtain ⟨n, hn', hc⟩ := capNs_of_used W v k ns (gid :: inner) ⟨_, hn, hun⟩
+          (fun n hn b hb j hj => hno j (NestedIn.deeper (b := .mk gid i w o ns) hn hb hj)) hk
+        exact capG_iff.mpr ⟨n, hn', hc⟩
+  theorem capNs_of_used (W : World) (v : VId) (k : GId) :
+      ∀ (ns : List NodeT) (chain : List GId), (∃ n, n ∈ ns ∧ UsedInN n v) →
+        (∀ n, n ∈ ns → ∀ b, b ∈ n.bodies → NoOwn W b v) → AddsTo W chain v k →
+        ∃ n, n ∈ ns ∧ CapNode W chain n k v
+    | [], _, ⟨_, hn, _⟩, _, _ => by cases hn
+    | n :: ns, chain, ⟨m, hm, hu⟩, hno, hk => by
+      rcases List.mem_cons.mp hm with heq | hm'
+      · have hu' : UsedInN n v := heq ▸ hu
+        exact ⟨n, List.mem_cons_self,
+          capN_of_used W v k n chain hu' (fun b hb => hno n List.mem_cons_self b hb) hk⟩
+      · obtain ⟨n', hn', hc⟩ := capNs_of_used W v k ns chain ⟨m, hm', hu⟩
+          (fun n hn => hno n (List.mem_cons_of_mem _ hn)) hk
+        exact ⟨n', List.mem_cons_of_mem _ hn', hc⟩
+  theorem capN_of_used (W : World) (v : VId) (k : GId) :
+      ∀ (n : NodeT) (chain : List GId), UsedInN n v → (∀ b, b ∈ n.bodies → NoOwn W b v) →
+        AddsTo W chain v k → CapNode W chain n k v
+    | .mk ins outs bs, chain, hu, hno, hk => by
+      cases hu with
+      | direct hd => exact Or.inl ⟨hd, hk⟩
+      | nested hb hub =>
+        obtain ⟨c, hc, hcap⟩ := capGs_of_used W v k bs chain ⟨_, hb, hub⟩ hno hk
+        exact Or.inr ⟨c, hc, hcap⟩
+  theorem capGs_of_used (W : World) (v : VId) (k : GId) :
+      ∀ (bs : List GraphT) (chain : List GId), (∃ b, b ∈ bs ∧ UsedInG b v) →
+        (∀ b, b ∈ bs → NoOwn W b v) → AddsTo W chain v k → ∃ c, c ∈ bs ∧ CapG W chain c k v
+    | [], _, ⟨_, hb, _⟩, _, _ => by cases hb
+    | b :: bs, chain, ⟨c, hc, hu⟩, hno, hk => by
+      rcases List.mem_cons.mp hc with heq | hc'
+      · have hu' : UsedInG b v := heq ▸ hu
+        have hself : W.graphOf v ≠ some b.gid := hno b List.mem_cons_self b.gid NestedIn.self
+        exact ⟨b, List.mem_cons_self,
+          capG_of_used W v k b chain hu' (hno b List.mem_cons_self) (addsTo_cons_of_ne hself hk)⟩
+      · obtain ⟨c', hc'', hcap⟩ := capGs_of_used W v k bs chain ⟨c, hc', hu⟩
+          (fun b hb => hno b (List.mem_cons_of_mem _ hb)) hk
+        exact ⟨c', List.mem_cons_of_mem _ hc'', hcap⟩
+end
+
+/-- what is recorded below a nested graph is recorded at the top -/
+theorem capG_lift {W : World} {b s : GraphT} (h : SubG b s) :
+    ∃ path : List GId, ∀ (inner : List GId) (k : GId) (v : VId),
+      CapG W (path ++ inner) s k v → CapG W inner b k v := by
+  induction h with
+  | self => exact ⟨[], fun _ _ _ h => h⟩
+  | @deeper b c s n hn hc _ ih =>
+    obtain ⟨path, hp⟩ := ih
+    refine ⟨path ++ [b.gid], ?_⟩
+    intro inner k v hcap
+    rw [List.append_assoc] at hcap
+    exact CapG.deeper hn hc (hp (b.gid :: inner) k v hcap)
+
+theorem capG_used {W : World} {inner : List GId} {b : GraphT} {k : GId} {v : VId}
+    (h : CapG W inner b k v) : UsedInG b v := by
+  induction h with
+  | here hn hv _ => exact UsedInG.node hn (UsedInN.direct hv)
+  | deeper hn hc _ ih => exact UsedInG.node hn (UsedInN.nested hc ih)
+
+/-- soundness: a recorded value is used in or below a graph with that id (or the id is one of the
+    enclosing graphs), and the graph with that id does not own it -/
+theorem capG_sound {W : World} {inner : List GId} {b : GraphT} {k : GId} {v : VId}
+    (h : CapG W inner b k v) :
+    (k ∈ inner ∨ ∃ s, SubG b s ∧ s.gid = k ∧ UsedInG s v) ∧ W.graphOf v ≠ some k := by
+  induction h with
+  | @here inner b n k v hn hv ha =>
+    refine ⟨?_, addsTo_ne ha⟩
+    rcases List.mem_cons.mp (addsTo_mem ha) with rfl | hk
+    · exact Or.inr ⟨b, SubG.self, rfl, UsedInG.node hn (UsedInN.direct hv)⟩
+    · exact Or.inl hk
+  | @deeper inner b c n k v hn hc hcap ih =>
+    refine ⟨?_, ih.2⟩
+    rcases ih.1 with hk | ⟨s, hs, hk, hu⟩
+    · rcases List.mem_cons.mp hk with rfl | hk
+      · exact Or.inr ⟨b, SubG.self, rfl, UsedInG.node hn (UsedInN.nested hc (capG_used hcap))⟩
+      · exact Or.inl hk
+    · exact Or.inr ⟨s, SubG.deeper hn hc hs, hk, hu⟩
 
 end IrVerif.Extract
